@@ -206,8 +206,11 @@ def part_formulas(ctx):
     from mitxgraders.helpers.calc.mathfuncs import DEFAULT_FUNCTIONS
     rng = ctx.rng
     asks, meta = [], []
-    lits = ['norm(v)', 'det(A)', 'trace(A)', 'sin(1)', 'abs(v)', 'norm([3,4])', '[1,2]', '[3,-1]', '[1,2,3]', '[[1,2],[3,4]]', '[[2,0],[0,4]]', '[[1,2],[2,4]]', '[[1,2,3],[4,5,6]]', '[[1],[2]]', '2', '0', 'A', 'v', '[i,1]', '[[1,i],[0,1]]']
-    variables = {'A': MathArray([[1.0, 1.0], [0.0, 1.0]]), 'v': MathArray([2.0, -1.0]), 'i': 1j}
+    lits = ['norm(v)', 'det(A)', 'trace(A)', 'sin(1)', 'abs(v)', 'norm([3,4])', '[1,2]', '[3,-1]', '[1,2,3]', '[[1,2],[3,4]]', '[[2,0],[0,4]]', '[[1,2],[2,4]]', '[[1,2,3],[4,5,6]]', '[[1],[2]]', '2', '0', 'A', 'v', '[i,1]', '[[1,i],[0,1]]', 'c', 'k', 'z', 'c', 'k']
+    import numpy as np
+    # c, k, z: numpy scalar values (an author's np.sqrt(2), an entry of an ndarray, a DiscreteSet of numpy numbers): same rules as builtin numbers
+    variables = {'A': MathArray([[1.0, 1.0], [0.0, 1.0]]), 'v': MathArray([2.0, -1.0]), 'i': 1j,
+                 'c': np.float64(1.5), 'k': np.array([3, 2])[1], 'z': np.complex128(1 + 2j)}
     from mitxgraders.helpers.calc.mathfuncs import ARRAY_ONLY_FUNCTIONS, merge_dicts
     FUN = merge_dicts(DEFAULT_FUNCTIONS, ARRAY_ONLY_FUNCTIONS)
 
